@@ -615,6 +615,7 @@ pub fn def() -> PropDef {
         needs_pairing: false,
         subs: vec![
             Box::new(crate::engine::EnumSub { name: "long-history", rule: super::longhist::RULE, run: run_long_history, replay: super::longhist::replay, exhaustive: false }),
+            Box::new(crate::engine::EnumSub { name: "two-input-bursts", rule: super::longhist::BURST_RULE, run: run_two_input_bursts, replay: super::longhist::replay_burst, exhaustive: false }),
             Box::new(Sub { name: "g1-paths", rule: "G1: (P, rep, k) through all applicable paths", quick: 2_250, thorough: 30_000, strategy: || boxed(mul_case_strategy(0)), check: check_mul_any }),
             Box::new(Sub { name: "g2-paths", rule: "G2: (P, rep, k) through all applicable paths", quick: 1_500, thorough: 15_000, strategy: || boxed(mul_case_strategy(1)), check: check_mul_any }),
             Box::new(Sub { name: "recode", rule: "wnaf_form for every window 2..=22 into a digit buffer with stale content; for windows <= 8 the digits are evaluated on the crate's own table and compared with the model [k]P (the digit form itself is recorded as a diagnostic only)", quick: 50_000, thorough: 1_000_000, strategy: || boxed(recode_strategy()), check: check_recode }),
